@@ -82,13 +82,13 @@ def fillRegs : Fill := { mems := noMems, imms := fewImm, rels8 := [], rels32 := 
 structure Item where
   text : String
   want : Dec
-  wmn  : String := ""      -- the mnemonic as written (a synonym of `want.mn` possibly)
+  wmn  : Mn := []      -- the mnemonic as written (a synonym of `want.mn` possibly)
   relKw : Nat := 0          -- 0 none, 1 short, 2 long
 
 def relKwOf (st : Style) : Nat := if st.relKw == "short " then 1 else if st.relKw == "long " then 2 else 0
 
 def items (st : Style) (ds : List Dec) : List Item :=
-  ds.map fun d => { text := d.asm st, want := d, wmn := if d.mn == "callf" then "call" else if d.mn == "jmpf" then "jmp" else d.mn,
+  ds.map fun d => { text := d.asm st, want := d, wmn := if d.mn == (mn! "callf") then (mn! "call") else if d.mn == (mn! "jmpf") then (mn! "jmp") else d.mn,
                     relKw := relKwOf st }
 
 /-- synonym spellings of an instance -/
@@ -118,7 +118,7 @@ def famC04 (thorough : Bool) : List Item :=
 /-- C02: every entry with a memory-capable operand over the memory shapes -/
 def famC02 (level : Nat) : List Item :=
   (table.filter fun en => hasRm en && !hasRel en).flatMap fun en =>
-    let rep := en.mn == "mov" && en.opc == 0x8B || en.mn == "paddb" || en.mn == "vaddpd" || en.mn == "lea"
+    let rep := en.mn == (mn! "mov") && en.opc == 0x8B || en.mn == (mn! "paddb") || en.mn == (mn! "vaddpd") || en.mn == (mn! "lea")
     let mems0 := if level ≥ 2 && rep then memsFull else if level ≥ 1 || rep then memsKey else memsMid
     let mems := fun sz => mems0 sz ++ memsSwap sz ++ memsLoneSp sz
     let f : Fill := { mems, imms := memImm, rels8 := [], rels32 := [], regForm := false, memForm := true }
@@ -149,14 +149,18 @@ def relValues32 : List Int :=
 def memsNoBase (size : Nat) : List Mem :=
   ((List.range 16).filter (· != 4)).flatMap fun i => [1, 2, 4, 8].flatMap fun s => [0, 8].map fun d => mkMem size false none (some i) s d
 
+/-- displacements no rel8 field holds: an instruction that has only a rel8 form (jrcxz) must reject them with every keyword, `short`
+    must reject them everywhere; without keyword (or with `long`) a branch that has a rel32 form takes it -/
+def relOut8 : List Int := [-129, 128, 255, 256, 300, -300, 0x7fff, 0x7fffffff, -0x80000000]
+
 /-- C05: relative branches over the displacement values, and the indirect forms of jmp and call: register targets over all
     registers, memory and far-memory targets over the C02 address shapes -/
 def famC05 : List Item :=
-  let f : Fill := { mems := noMems, imms := fewImm, rels8 := (List.range 256).map (fun (n : Nat) => (n : Int) - 128), rels32 := relValues32 ++ (List.range 260).map (fun (n : Nat) => (n : Int) - 130) }
+  let f : Fill := { mems := noMems, imms := fewImm, rels8 := (List.range 256).map (fun (n : Nat) => (n : Int) - 128) ++ relOut8, rels32 := relValues32 ++ (List.range 260).map (fun (n : Nat) => (n : Int) - 130) }
   ((table.filter hasRel).flatMap fun en =>
     let ds := enumEnc f en
     ds.flatMap (withSynonyms {}) ++ items { num := .dec } ds ++ items { relKw := "short " } ds ++ items { relKw := "long " } ds) ++
-  ((table.filter fun en => ["call", "callf", "jmp", "jmpf"].contains en.mn && hasRm en && !hasRel en).flatMap fun en =>
+  ((table.filter fun en => [(mn! "call"), (mn! "callf"), (mn! "jmp"), (mn! "jmpf")].contains en.mn && hasRm en && !hasRel en).flatMap fun en =>
     let mems := fun sz => memsKey sz ++ memsSwap sz ++ memsLoneSp sz ++ memsNoBase sz
     let fi : Fill := { mems, imms := fewImm, rels8 := [], rels32 := [], regForm := true, memForm := true }
     let ds := enumEnc fi en
